@@ -287,7 +287,12 @@ theorem expandGo_append (fixed : Bool) (known : Bytes → Bool) (pre rest : List
           rw [if_pos hk] at h; cases h
         · rename_i hk
           rw [if_neg hk] at h
-          exact ih _ h
+          split
+          · rename_i hm
+            rw [if_pos hm] at h; cases h
+          · rename_i hm
+            rw [if_neg hm] at h
+            exact ih _ h
     | err c => rw [hp] at h; cases h
     | panic w => rw [hp] at h; cases h
     | fatal w => rw [hp] at h; cases h
